@@ -273,7 +273,7 @@ theorem boundary_resolve (S : Schema) {ty0 : TypeId} {a0 : Attrs} {m0 : Marks} {
     simp only [Option.some.injEq] at hp
     subst hp
     have hl' : Lvl ty0 K (r.start d) d tyP (pre ++ (mid ++ post)) ctx := by simpa using hl
-    obtain ⟨rp, h1, h2, h3, h4, h5⟩ := resolve_at_boundary S ty0 a0 m0 hl' hnL.1.1
+    obtain ⟨rp, h1, h2, h3, h4, h5, _, _⟩ := resolve_at_boundary S ty0 a0 m0 hl' hnL.1.1
     exact ⟨rp, h1, by rw [h3, hty], by rw [h2, hk]; simp, by rw [h4, hi, hpl], h5⟩
   | after =>
     simp only at hside
@@ -281,7 +281,7 @@ theorem boundary_resolve (S : Schema) {ty0 : TypeId} {a0 : Attrs} {m0 : Marks} {
     rw [haft] at hp
     simp only [Option.some.injEq] at hp
     subst hp
-    obtain ⟨rp, h1, h2, h3, h4, h5⟩ := resolve_at_boundary S ty0 a0 m0 (pre := pre ++ mid) (post := post) hl
+    obtain ⟨rp, h1, h2, h3, h4, h5, _, _⟩ := resolve_at_boundary S ty0 a0 m0 (pre := pre ++ mid) (post := post) hl
       (by simp [fnormKids_append, hnL.1.1, hnL.1.2])
     rw [fsize_append] at h1
     exact ⟨rp, h1, by rw [h3, hty], by rw [h2, hk], by rw [h4, hi, hpml], h5⟩
